@@ -16,6 +16,27 @@ REPLAY_DIR = os.path.join(ROOT, "replays")
 KNOWN_FILE = os.path.join(ROOT, "known_findings.json")
 NCPU = int(os.environ.get("VERIF_WORKERS", "0")) or min(16, os.cpu_count() or 1)
 SEED = int(os.environ.get("VERIF_SEED", "0") or 0)
+try:
+    ALL_CPUS = sorted(os.sched_getaffinity(0))
+except (AttributeError, OSError):
+    ALL_CPUS = []
+
+
+def pin(i=0):
+    """Pin this process to one CPU: baton hand-offs between its OS threads then need no IPI."""
+    if ALL_CPUS:
+        try:
+            os.sched_setaffinity(0, {ALL_CPUS[i % len(ALL_CPUS)]})
+        except OSError:
+            pass
+
+
+def unpin():
+    if ALL_CPUS:
+        try:
+            os.sched_setaffinity(0, set(ALL_CPUS))
+        except OSError:
+            pass
 
 
 def jsonable(x, depth=0):
@@ -133,6 +154,7 @@ def pmap(items, fn, workers=None, init=None):
             if pid == 0:
                 code = 0
                 try:
+                    pin(w)
                     if init:
                         init()
                     acc = Acc()
